@@ -132,7 +132,7 @@ def end_to_end(shard, nshards, payload):
             if not any(lo <= d["s"] and d["e"] <= lo + len(lit.encode()) + (len(src[:lo].encode()) - lo)
                        or (src.encode().find(lit.encode()) <= d["s"] and d["e"] <= src.encode().find(lit.encode()) + len(lit.encode()))
                        for d in errs):
-                t.violation(f"e2e:{sink}:diagnostic-not-on-the-colour-string", dict(case, diagnostics=errs))
+                t.inc("e2e_rejections_reported_elsewhere_than_on_the_string")     # the statement does not say where: observed, not judged
             continue
         t.inc("e2e_expected_accept")
         if not vc.accepted(g):
